@@ -225,7 +225,7 @@ InvalidCls == {"wrongtype", "wrongsyntax", "outofrange"}
 Classes == {"valid"} \cup InvalidCls
 
 \* value classes that exist for a datatype (there is no integer i cannot hold, etc.)
-Ranged == {"B", "position_gfa1", "position_gfa2"}
+Ranged == {"B", "f", "position_gfa1", "position_gfa2"}      \* (f: the non-finite floats)
 ClassesOf(dt) == IF dt \in Ranged THEN Classes ELSE Classes \ {"outofrange"}
 
 Field(dt, cls, ver) == [dt |-> dt, cls |-> cls, ver |-> ver]
